@@ -637,3 +637,36 @@ Proof.
   intros F H. pose proof (apply_updated_spec old cs l F H) as E. subst l.
   split; [reflexivity|]. split; [exact (spec_apply_wf old cs F)|exact (spec_apply_member old cs)].
 Qed.
+
+Lemma referrer_art_api k art cfg : referrer_art k art cfg = api_art k art cfg.
+Proof.
+  unfold referrer_art, api_art.
+  destruct k; cbv [kind_num table_fallback GC14.referrer_art_table]; simpl;
+    destruct (art =? 0) eqn:E; simpl; auto; apply N.eqb_eq in E; congruence.
+Qed.
+
+(* every entry of the result is an entry of the old index or the descriptor of an
+   Add change, unchanged (artifact type and annotations travel with it) *)
+Lemma spec_fold_origin d cs : forall l,
+  In d (fold_left spec_step cs l) -> In d l \/ In (Add d) cs.
+Proof.
+  induction cs as [|c t IH]; intros l H; simpl in *; auto.
+  destruct (IH _ H) as [H1|H1]; [|auto].
+  destruct c as [x|x]; simpl in H1.
+  - destruct (has_key (dkey x) l); auto. apply in_app_iff in H1 as [H1|[<-|[]]]; auto.
+  - apply filter_In in H1. tauto.
+Qed.
+
+Lemma clean_acc_incl d l : forall acc, In d (clean_acc l acc) -> In d acc \/ In d l.
+Proof.
+  induction l as [|r t IH]; intros acc H; simpl in *; auto.
+  destruct (is_empty r || has_key (dkey r) acc).
+  - destruct (IH _ H); auto.
+  - destruct (IH _ H) as [H1|H1]; auto. apply in_app_iff in H1 as [H1|[<-|[]]]; auto.
+Qed.
+
+Lemma spec_apply_origin d old cs : In d (spec_apply old cs) -> In d old \/ In (Add d) cs.
+Proof.
+  intro H. apply spec_fold_origin in H as [H|H]; auto.
+  apply clean_acc_incl in H as [[]|H]. auto.
+Qed.
